@@ -430,7 +430,10 @@ def run_ws_fold(chk, model):
     for _ in range(chk.n(200, 2000)):
         fmt = rng.choice(["properties", "properties", "dtd"])   # (.ini: trailing blanks are value)
         case = gen_triple(rng, fmt)
-        if not case["old"].strip():
+        last = [it for it in case["old_items"] if it[0] != "blank"][-1:]
+        if not case["old"].strip() or not last or last[0][0] != "ent":
+            # only files whose last line is an entity: after a comment the blanks would be
+            # comment text, a different family (reported, not part of this stream)
             continue
         tail = "".join(rng.choice(" \t") for _ in range(rng.randint(1, 4)))
         clean_old = case["old"]
